@@ -545,7 +545,7 @@ Proof.
   - rewrite (Hu C U1 (or_introl eq_refl) G1). simpl. exact Hpre.
 Qed.
 
-(* with a single-word number the guard of repair F4 changes nothing ... *)
+(* with a single-word number the guard of fix: 537f494 (C11-F4) changes nothing ... *)
 Lemma portion_loop_guard_irrel f4 S cs v w num ut :
   has_space num = false -> portion_loop f4 S cs v w num ut = portion_loop false S cs v w num ut.
 Proof.
@@ -553,7 +553,7 @@ Proof.
   simpl. rewrite IH, H. simpl. rewrite orb_true_r. reflexivity.
 Qed.
 
-(* ... and with single-word number and unit texts neither does repair F3 *)
+(* ... and with single-word number and unit texts neither does fix: 0669633 (C11-F3) *)
 Lemma portion_flags_single f3 f4 S cs a b :
   no_space a -> no_space b ->
   get_tag_units_portion f3 f4 S cs (a ++ 32%N :: b) = get_tag_units_portion false false S cs (a ++ 32%N :: b).
@@ -619,7 +619,7 @@ Proof.
   rewrite Hn in Hin. destruct Hin.
 Qed.
 
-(* ------------------------------------------------------------------ "<number> <unit text>", repaired splitting
+(* ------------------------------------------------------------------ "<number> <unit text>", splitting as in /repo since fix: 537f494, 0669633
    (f3 = f4 = true): n is the number (one word), u the unit text (ANY number of words), (v, w) the split of the
    whole extension at its last blank, which is the one tried for prefix-type units *)
 
@@ -857,7 +857,7 @@ Proof.
   rewrite (no_caret_replace t H), (no_caret_split t H). reflexivity.
 Qed.
 
-(* without a caret in the texts involved the code as it stands computes the repaired factor *)
+(* without a caret in the texts involved the code before fix: d18c9c6 computed the same factor as the code now *)
 Lemma conv_no_caret U M :
   no_caret (factor_text (u_factor U)) = true ->
   (forall m, M = Some m -> no_caret (factor_text (m_factor m)) = true) ->
@@ -869,7 +869,7 @@ Proof.
   rewrite (float_factor_no_caret _ (HM m eq_refl)). reflexivity.
 Qed.
 
-(* the repaired factor is the product of the declared factors, "a^b" read as a power *)
+(* the factor (since fix: d18c9c6) is the product of the declared factors, "a^b" read as a power *)
 Lemma conv_true_spec U M ft fU fM :
   u_factor U = Some ft -> unit_factor U = Some fU -> mod_factor M = Some fM ->
   conv true U M = Qmult fU fM.
@@ -1084,3 +1084,119 @@ Proof.
   - rewrite !app_assoc. apply Permutation_app_tail. apply Permutation_app_comm.
   - eapply Permutation_trans; eauto.
 Qed.
+
+(* ================================================================== texts with MORE than one reading
+   (no [unamb] hypothesis): whatever the code answers is one of the readings *)
+
+Section AnyReading.
+Variable S : uschema.
+Variable cs : list classdef.
+Hypothesis Hwf : wf_schema S = true.
+Hypothesis Hcs : forall C, In C cs -> In C (s_classes S).
+
+(* a defined value is always the number times the factors of ONE genuine reading (U, M) of the unit text *)
+Theorem value_is_a_reading_lemma (fixed : bool) n u v w q :
+  no_space n -> n <> [] -> rpartition_space (n ++ 32%N :: u) = (v, w) -> cands S cs v = [] ->
+  value_as_default_unit fixed true true S cs (n ++ 32%N :: u) = Ok (Some q) ->
+  exists C U M x,
+    In C cs /\ In U (c_units C) /\ spells S U M u /\ u_prefix U = false /\
+    parse_float n = Some x /\ q = Qmult x (conv fixed U M).
+Proof.
+  intros Hns Hnn Hr Hv.
+  unfold value_as_default_unit. rewrite Hr.
+  pose proof (rpart_nonempty n u v w Hr Hnn) as Hvn.
+  destruct v as [|cv v'] eqn:Ev; [congruence|]. rewrite <- Ev in *.
+  assert (Hv' : nonempty v = true) by (rewrite Ev; reflexivity).
+  rewrite Hv'. simpl negb. cbv iota. unfold bind.
+  destruct (get_tag_units_portion true true S cs (n ++ 32%N :: u)) as [[[sv ut] U]|] eqn:E; [|discriminate].
+  unfold get_tag_units_portion in E. rewrite Hr, (partition_app n u Hns) in E.
+  destruct (negb (nonempty w)); [discriminate|].
+  apply portion_loop_some in E as [[A [B [P [_ [C [HC G]]]]]]|[_ [_ [_ [C [HC G]]]]]].
+  - subst sv ut.
+    destruct (nonempty n); [|discriminate].
+    destruct (hit_spelled S cs Hwf Hcs C u U HC G) as [HU _].
+    unfold get_conversion_factor.
+    destruct (u_factor U) as [ft|]; [|discriminate].
+    set (key := if fixed && negb (u_symbol U) then casefold u else u).
+    destruct (dict_get (unit_derivative_units fixed S U) key) as [q0|] eqn:D; [|discriminate].
+    unfold unit_derivative_units in D.
+    apply dict_get_map_some in D as [e [He [Hk Hq0]]].
+    destruct (parse_float n) as [x|] eqn:Hx; [|discriminate].
+    intro H. inversion H; subst q.
+    exists C, U, (e_mod e), x.
+    split; [exact HC|]. split; [exact HU|].
+    split; [|split; [exact P|split; [reflexivity|rewrite Hq0; reflexivity]]].
+    (* the key that was found matches the text, hence is a spelling *)
+    assert (Hm : entry_matches u e = true \/ (fixed = false /\ u_symbol U = false /\ e_key e = u)).
+    { unfold entry_matches. rewrite (unit_entries_unit S U e He). unfold key in Hk.
+      destruct (u_symbol U) eqn:Hs.
+      - left. rewrite andb_false_r in Hk. apply str_eqb_spec. exact Hk.
+      - rewrite andb_true_r in Hk. destruct fixed.
+        + left. apply str_eqb_spec. exact Hk.
+        + right. auto. }
+    destruct Hm as [Hm|[Hfx [Hs Hk']]].
+    + eapply entry_spells; eauto. eapply all_units_in; eauto.
+    + (* before fix f83491d a name was looked up by its exact text: the text is then its own folded form *)
+      assert (Hfold : casefold u = u).
+      { apply gdue_some in G as [e0 [He0 [Hu0 Hm0]]].
+        unfold entry_matches in Hm0. rewrite Hu0, Hs in Hm0. apply str_eqb_spec in Hm0.
+        (* e has key u and is a non-symbol entry of U: its key is case-folded *)
+        pose proof (wf_unit_of S U Hwf (all_units_in S C U (Hcs C HC) HU)) as HwU.
+        apply unit_entries_char in He as [b [Hb He]].
+        apply (base_units_nonsym U Hs) in Hb.
+        pose proof (plural_fold S U HwU Hs) as Hpl.
+        assert (Hbf : casefold b = b).
+        { destruct Hb as [Hb|Hb]; subst b; [apply casefold_idem|exact Hpl]. }
+        destruct He as [He|[m [Hmm He]]]; subst e; simpl in Hk'.
+        - rewrite <- Hk'. exact Hbf.
+        - apply (mods_of_unit S U HwU) in Hmm as [Hin Hp].
+          assert (Hf : casefold (m_name m) = m_name m).
+          { apply nonsym_mod_fold; [eapply wf_mod_of; eauto|].
+            unfold permitted in Hp. rewrite Hs in Hp. apply andb_true_iff in Hp as [_ Hp]. exact Hp. }
+          rewrite <- Hk', casefold_app, Hf, Hbf. reflexivity. }
+      eapply entry_spells; eauto; [eapply all_units_in; eauto|].
+      unfold entry_matches. rewrite (unit_entries_unit S U e He), Hs, Hfold.
+      apply str_eqb_spec. exact Hk'.
+  - rewrite (no_cands_no_hit S cs v C Hv HC) in G. discriminate.
+Qed.
+
+End AnyReading.
+
+(* ================================================================== which per-string caches keep the rule
+   NOT code of the implementation (its loop has no cache): a characterisation of the family of loops that
+   remember "clean" tags under some key and skip later tags with a remembered key. *)
+
+Section Memo.
+Variable V : utag * str -> list code.          (* the per-tag verdict *)
+Variable key : utag * str -> str.              (* what the loop remembers of a clean tag *)
+
+Fixpoint memo_loop (clean : list str) (tags : list (utag * str)) : list code :=
+  match tags with
+  | [] => []
+  | te :: r =>
+      if existsb (str_eqb (key te)) clean then memo_loop clean r
+      else match V te with
+           | [] => memo_loop (key te :: clean) r
+           | iss => iss ++ memo_loop clean r
+           end
+  end.
+
+(* such a cache is harmless when equal keys imply equal verdicts *)
+Theorem memo_sound_lemma :
+  (forall a b, key a = key b -> V a = V b) ->
+  forall tags clean,
+  (forall k, In k clean -> forall te, key te = k -> V te = []) ->
+  memo_loop clean tags = flat_map V tags.
+Proof.
+  intros Hkey tags. induction tags as [|te r IH]; intros clean Hclean; [reflexivity|].
+  simpl. destruct (existsb (str_eqb (key te)) clean) eqn:E.
+  - apply existsb_exists in E as [k [Hk Hm]]. apply str_eqb_spec in Hm.
+    rewrite (Hclean k Hk te Hm). simpl. apply IH. exact Hclean.
+  - destruct (V te) as [|c cs'] eqn:Ev.
+    + simpl. apply IH. intros k [Hk|Hk] te' Hte'.
+      * subst k. rewrite (Hkey te' te Hte'). exact Ev.
+      * eapply Hclean; eauto.
+    + rewrite IH; [reflexivity|exact Hclean].
+Qed.
+
+End Memo.
